@@ -265,21 +265,150 @@ def explore(ctx, tier, search=False):
     ctx.notes_count.clear()
 
 
+
+# ------------------------------------------------------------------------------------------------ histories
+def run_history(handlers, reqs, directory, upto=None):
+    """serve `reqs` ([key, path, query, valid]) one after the other from handlers ([key, backend, spec]) that are all
+    built first and live in this process together, on freshly imported pydap modules; returns the responses"""
+    G.fresh_pydap()
+    apps = {key: G.build_app(backend, spec, directory) for key, backend, spec in handlers}
+    out = []
+    for key, path, q, _valid in reqs[: (upto + 1) if upto is not None else None]:
+        out.append(G.run_request(apps[key], path, q))
+    return out
+
+
+def history_case(handlers, reqs, k):
+    key, path, q, valid = reqs[k]
+    spec = [h for h in handlers if h[0] == key][0][2]
+    return {"app": "history", "handlers": [[h[0], h[1], G.ds_sexp(h[2])] for h in handlers],
+            "requests": [list(r) for r in reqs[: k + 1]], "index": k, "path": path, "query": q, "dataset": G.ds_sexp(spec),
+            "class": ("valid" if valid else "faulty") + "/history"}
+
+
+def fails_alone(handlers, reqs, idx, directory):
+    """does the last of the requests `idx` (a sub-history, in order) still fail the oracle when served on its own?"""
+    from collections import Counter
+    sub = [reqs[i] for i in idx]
+    res = run_history(handlers, sub, directory)[-1]
+    q = common.Ctx("C15", "quick", 0)
+    q.findings = []
+    q.notes_count = Counter()
+    judge(q, res, sub[-1][1], sub[-1][2], sub[-1][3], "history", {"class": "history"})
+    return bool(q.oracle_failures)
+
+
+def explore_histories(ctx, tier, search=False):
+    """several datasets in one process: handlers built together, requests served alternately, every body read to its
+    end; the oracle is `judge`, the tie is the whole history against the model of a process (`h-proc`)"""
+    import shutil
+    import tempfile
+    from collections import Counter
+    if not hasattr(ctx, "notes_count"):
+        ctx.notes_count = Counter()
+    rng = ctx.rng("histories" + ("-search" if search else ""))
+    n_hist = 60 if tier == "quick" else 400
+    directory = tempfile.mkdtemp(prefix="c15-hist-")
+    lines = []
+    try:
+        for hi in range(n_hist):
+            fam = G.gen_family(rng)
+            handlers = [(key, backend, spec) for key, backend, spec in fam]
+            by_key = {h[0]: h for h in handlers}
+            reqs = []
+            last = None
+            for _ in range(rng.randint(8, 16)):
+                key = rng.choice([h[0] for h in handlers if h[0] != last] or [last]) if rng.random() < 0.85 else rng.choice(handlers)[0]
+                last = key
+                _, backend, spec = by_key[key]
+                for _try in range(30):
+                    q, _exp = G.gen_valid_ce(rng, spec)
+                    if backend != "ranged" or not any(c in q for c in "&<>=!"):
+                        break
+                else:
+                    q = ""
+                valid = True
+                if rng.random() < 0.15:
+                    q = G.inject_fault(rng, spec, q, rng.choice(G.FAULT_KINDS))
+                    valid = False
+                    if any(ord(ch) > 126 or ord(ch) < 33 or ch == "#" for ch in q):
+                        continue
+                ext = rng.choice(["dods", "dods", "dods", "dods", "ascii", "ascii", "dds", "dds", "das"])
+                reqs.append((key, G.request_path(backend, spec, ext), q, valid))
+            results = run_history(handlers, reqs, directory)
+            impl = []
+            for k, ((key, path, q, valid), res) in enumerate(zip(reqs, results)):
+                if not res["sent"]:
+                    impl.append(None)
+                    continue
+                probe = common.Ctx("C15", "quick", 0)
+                probe.findings = []
+                probe.notes_count = Counter()
+                verdict = judge(probe, res, path, q, valid, "history", {"class": "history"})
+                if probe.oracle_failures:
+                    # record the smallest sub-history that still fails on its own (the request alone, a pair, the prefix)
+                    idx = None
+                    for cand in [[k]] + [[j, k] for j in range(k)]:
+                        if fails_alone(handlers, reqs, cand, directory):
+                            idx = cand
+                            break
+                    sub = [reqs[i] for i in idx] if idx else list(reqs[: k + 1])
+                    used = {r[0] for r in sub}
+                    case = history_case([h for h in handlers if h[0] in used], sub, len(sub) - 1)
+                    for f in probe.oracle_failures:
+                        ctx.oracle_fail("history of %d request(s) on %d dataset(s) in one process: %s" % (len(sub), len(used), f["what"]),
+                                        case, f["observed"], f["expected"], size=len(repr(case)))
+                impl.append(canon_impl(res))
+                ctx.count(("history", hi, k, key, path, q), True, tag="history:%s|%s|%s|%s" % (
+                    by_key[key][1], "valid" if valid else "faulty", G.ext_of(path), verdict),
+                    sample={"history": hi, "backend": by_key[key][1], "path": path, "query": q})
+            kept = [(r, i) for r, i in zip(reqs, impl) if i is not None]
+            ctx.tags["history:backends=%s" % "+".join(sorted(h[1] for h in handlers))] += 1
+            line = "h-proc (%s) (%s)" % (" ".join("(%s %s)" % (G.hx(h[0]), G.ds_sexp(h[2])) for h in handlers),
+                                         " ".join("(%s %s %s)" % (G.hx(r[0]), G.hx(r[1]), G.hx(r[2])) for r, _ in kept))
+            lines.append((line, [i for _, i in kept], {"history": hi, "handlers": [[h[0], h[1], G.ds_sexp(h[2])] for h in handlers],
+                                                       "requests": [list(r) for r, _ in kept]}))
+    finally:
+        shutil.rmtree(directory, ignore_errors=True)
+        G.fresh_pydap()
+    outs = common.run_driver([l[0] for l in lines])
+    adj = []
+    for (line, impl, meta), mod in zip(lines, outs):
+        mods = mod.split(";") if mod else []
+        if len(mods) == len(impl):
+            impl = ["answered" if m == "answered" and not i.startswith("escaped") and not i.startswith("status") else i
+                    for m, i in zip(mods, impl)]
+            # point at the first request whose answer differs
+            bad = [k for k, (m, i) in enumerate(zip(mods, impl)) if m != i]
+            if bad:
+                meta = dict(meta, first_difference=bad[0], request=meta["requests"][bad[0]])
+        adj.append((line, ";".join(impl), meta))
+    ctx.correspond("histories: several datasets served alternately by one process vs the process model (run)", adj)
+
+
 def run(ctx):
     ctx.rule = ("per generated dataset (arrays, structures, grids, flat sequences): 10 valid CEs and 2..6 CEs per fault "
                 "kind (unknown variable, non-numeric / over-long / negative / inverted / out-of-range hyperslab, too many "
                 "indices, unbalanced brackets or parentheses, unknown function, wrong operand type, operands that are not "
                 "Python literals, bad operator, function call combined with a faulty clause or argument, bad paths through "
                 "the nested structure, percent escapes, dap4.ce, byte-level mutation) x paths with known / unmodelled / no / unknown extension; a case is "
-                "non-trivial unless it is the valid empty query; distinct by (dataset, path, query)")
+                "non-trivial unless it is the valid empty query; distinct by (dataset, path, query); "
+                "histories: 2..4 datasets held by handlers of one process (in-memory, lazy IterData, lazy with a record range, CSV files), "
+                "same dataset name and ids drawn from the same pool with other types / shapes / record counts, 8..16 requests "
+                "(.dods .ascii .dds .das, 15 % fault-injected) served alternately, each body read to its end")
     ctx.assumptions = ["webob Request/Response plumbing is trusted; the body is read through Response.body",
                        "inside the guarded region the model leaves comparisons of unlike types, operands that are not literals, paths "
                        "through base variables and odd record ranges unresolved (outcome `answered`): containment does not depend "
                        "on them; hyperslabs on arrays and grids are resolved (check_hyperslab)"]
     ctx.proof_phase()
     table_cases(ctx)
+    explore_histories(ctx, ctx.tier)
     explore(ctx, ctx.tier)
-    return ctx.finish(search=lambda c: explore(c, "thorough", search=True), witnesses={SSF_ESCAPE: ssf_witness})
+
+    def search(c):
+        explore_histories(c, "thorough", search=True)
+        explore(c, "thorough", search=True)
+    return ctx.finish(search=search, witnesses={SSF_ESCAPE: ssf_witness})
 
 
 def ssf_witness():
@@ -297,6 +426,27 @@ def replay(payload):
         print("nothing to replay: %s" % payload.get("no_longer_checks"))
         return False
     c = f["case"]
+    if c.get("app") == "history":
+        import shutil
+        import tempfile
+        from collections import Counter
+        directory = tempfile.mkdtemp(prefix="c15-replay-")
+        try:
+            handlers = [(k, b, spec_from_sexp(sx)) for k, b, sx in c["handlers"]]
+            reqs = [tuple(r) for r in c["requests"]]
+            results = run_history(handlers, reqs, directory)
+        finally:
+            shutil.rmtree(directory, ignore_errors=True)
+        for (key, path, q, valid), res in zip(reqs, results):
+            print("request %s?%s on %s (%s) -> exc=%s status=%s description=%s body_exc=%s" % (
+                path, q, key, [h[1] for h in handlers if h[0] == key][0], res["exc"], res["status"], res["cdesc"], res["body_exc"]))
+        qc = common.Ctx("C15", "quick", 0)
+        qc.findings = []
+        qc.notes_count = Counter()
+        judge(qc, results[-1], reqs[-1][1], reqs[-1][2], reqs[-1][3], "history", c)
+        for fl in qc.oracle_failures:
+            print("  fails:", fl["what"])
+        return not qc.oracle_failures
     spec = spec_from_sexp(c["dataset"])
     ds = G.build(spec)
     app = {"handler": lambda: BaseHandler(ds), "ssf": lambda: SSF(BaseHandler(ds)), "gzip": lambda: BaseHandler(ds, gzip=True)}[c["app"]]()
